@@ -116,7 +116,7 @@ def run_case(case, acc, tier):
     if cls != "realsrc":
         entry = "0" if "0" in astcfg else min(astcfg, key=lambda s: int(s))
         try:
-            interp = astsem.make_cfg_interp(astcfg, argnames, defaults, entry)
+            interp = astsem.make_cfg_interp(astcfg, argnames, defaults, entry, signature=fn.args)
         except Exception as e:
             ctx.violation("C08", "block_does_not_compile", repr(e)[:200], mech=progbase.mech_of(ctx))
             acc.add_ctx(ctx, case)
